@@ -33,6 +33,9 @@ def run_kani_only(run, names, bounds, outside, assumes, features=(), timeout=Non
         if c['request'].get('op') == 'deser':
             obs = {'dev': nd.request(c['request']), 'release': nr.request(c['request'])}
             return any(o.get('kind') != 'ok' or not o.get('equal') for o in obs.values()), obs
+        if c['request'].get('op') == 'serde_repeat':
+            obs = {'dev': nd.request(c['request']), 'release': nr.request(c['request'])}
+            return any(o.get('kind') != 'ok' or not o.get('stable') for o in obs.values()), obs
         if c['request'].get('op') == 'serde':
             obs = {'dev': nd.request(c['request']), 'release': nr.request(c['request'])}
             return any(o.get('kind') != 'ok' or o.get('library') != o.get('serde_json') for o in obs.values()), obs
